@@ -361,6 +361,10 @@ func run(id, tier, repo, verif string, writeEvidence bool) (status int) {
 		if r := recover(); r != nil {
 			if te, ok := r.(toolError); ok {
 				fmt.Fprintf(os.Stderr, "rtcheck: TOOL ERROR (undecided, not a verdict): %s\n", te.msg)
+				if strings.HasPrefix(te.msg, "anchor") || strings.Contains(te.msg, "has no parameter") || strings.Contains(te.msg, "not found") {
+					// an anchor of the rules is gone or has another shape: the code was restructured beyond recognition
+					fmt.Printf("  UNRECOGNISED anchor: %s\nUNDECIDED property=%s: an anchor of the rules could not be resolved on this tree (this is not a verdict)\n", te.msg, id)
+				}
 			} else {
 				fmt.Fprintf(os.Stderr, "rtcheck: INTERNAL ERROR (undecided, not a verdict): %v\n%s\n", r, debug.Stack())
 			}
